@@ -268,7 +268,7 @@ func main() {
 		nHist = envInt("VERIF_HISTORIES", nHist)
 		nSteps = envInt("VERIF_STEPS", nSteps)
 		for hI := 0; hI < nHist; hI++ {
-			g := &Gen{r: &RNG{s: seed*0x9E3779B97F4A7C15 + uint64(hI)*0xD1B54A32D192ED03 + 1}, allowReattach: hI%4 == 3, allowTwoIface: hI%5 == 4, invalidPct: 62}
+			g := &Gen{r: &RNG{s: seed*0x9E3779B97F4A7C15 + uint64(hI)*0xD1B54A32D192ED03 + 1}, allowReattach: hI%4 == 3, allowTwoIface: hI%5 == 4, invalidPct: 68, buildSteps: 10}
 			pre := g.prefix()
 			var queue []Op
 			queued := false
